@@ -192,14 +192,16 @@ theorem digit_ne_slash (d : Str) (h : d.all isDigit = true) : '/' ∉ d := by
 def keyHost (host : Str) : Str := lowerASCII (splitHostPort host).1
 def effPort (scheme host : Str) : Str :=
   if (splitHostPort host).2.isEmpty then defaultPort scheme else (splitHostPort host).2
+/-- the path as it appears in the key: percent-encoding normalised, then dot segments removed, "/" if empty -/
 def keyPath (scheme path : Str) : Str :=
-  if path.isEmpty && (scheme = (str% "http") || scheme = (str% "https")) then ['/'] else path
+  if (removeDotSegments (normalizePercentEncoding path)).isEmpty && (scheme = (str% "http") || scheme = (str% "https")) then ['/']
+  else removeDotSegments (normalizePercentEncoding path)
 def keyAuthority (scheme host : Str) : Str :=
   if !(effPort scheme host).isEmpty && effPort scheme host ≠ defaultPort scheme then keyHost host ++ [':'] ++ effPort scheme host
   else keyHost host
 
 theorem key_form (s h p q : Str) :
-    makeURLKeyOf s h p q [] = s ++ ((str% "://") ++ (keyAuthority s h ++ (normalizePercentEncoding (keyPath s p) ++
+    makeURLKeyOf s h p q [] = s ++ ((str% "://") ++ (keyAuthority s h ++ (keyPath s p ++
       (if q.isEmpty then [] else '?' :: normalizePercentEncoding q)))) := by
   unfold makeURLKeyOf keyAuthority effPort keyHost keyPath
   rcases hsp : splitHostPort h with ⟨h', p0⟩
@@ -269,15 +271,96 @@ theorem keyAuthority_no_slash (s h : Str) (hs : s = (str% "http") ∨ s = (str% 
     · exact digit_ne_slash _ hd hm
   · exact hk
 
-theorem keyPath_form (s p : Str) (hs : s = (str% "http") ∨ s = (str% "https")) (hp : p = [] ∨ ∃ r, p = '/' :: r) (hq : '?' ∉ p) :
-    ∃ r, keyPath s p = '/' :: r ∧ '?' ∉ r := by
-  unfold keyPath
-  rcases hp with hp | ⟨r, hp⟩
+theorem splitSlash_go_mem : ∀ (s cur seg : Str), seg ∈ splitSlash.go cur s → ∀ c ∈ seg, c ∈ cur ∨ c ∈ s
+  | [], cur, seg, h, c, hc => by
+    simp only [splitSlash.go, List.mem_singleton] at h
+    subst h; left; simpa using hc
+  | x :: r, cur, seg, h, c, hc => by
+    simp only [splitSlash.go] at h
+    split at h
+    · rcases List.mem_cons.mp h with h | h
+      · subst h; left; simpa using hc
+      · rcases splitSlash_go_mem r [] seg h c hc with h' | h'
+        · cases h'
+        · right; exact List.mem_cons_of_mem _ h'
+    · rcases splitSlash_go_mem r (x :: cur) seg h c hc with h' | h'
+      · rcases List.mem_cons.mp h' with h' | h'
+        · right; subst h'; exact List.mem_cons_self
+        · left; exact h'
+      · right; exact List.mem_cons_of_mem _ h'
+
+theorem dotLoop_mem : ∀ (segs out : List Str) (seg : Str), seg ∈ dotLoop out segs → seg ∈ out ∨ seg ∈ segs ∨ seg = []
+  | [], out, seg, h => by simp only [dotLoop] at h; exact Or.inl h
+  | [x], out, seg, h => by
+    simp only [dotLoop] at h
+    split at h
+    · rcases List.mem_append.mp h with h | h
+      · exact Or.inl h
+      · right; right; simpa using h
+    · split at h
+      · rcases List.mem_append.mp h with h | h
+        · exact Or.inl (List.dropLast_subset _ h)
+        · right; right; simpa using h
+      · rcases List.mem_append.mp h with h | h
+        · exact Or.inl h
+        · right; left; simpa using h
+  | x :: y :: rest, out, seg, h => by
+    simp only [dotLoop] at h
+    split at h
+    · rcases dotLoop_mem (y :: rest) out seg h with h | h | h
+      · exact Or.inl h
+      · exact Or.inr (Or.inl (List.mem_cons_of_mem _ h))
+      · exact Or.inr (Or.inr h)
+    · split at h
+      · rcases dotLoop_mem (y :: rest) _ seg h with h | h | h
+        · exact Or.inl (List.dropLast_subset _ h)
+        · exact Or.inr (Or.inl (List.mem_cons_of_mem _ h))
+        · exact Or.inr (Or.inr h)
+      · rcases dotLoop_mem (y :: rest) _ seg h with h | h | h
+        · rcases List.mem_append.mp h with h | h
+          · exact Or.inl h
+          · right; left; rw [List.mem_singleton.mp h]; exact List.mem_cons_self
+        · exact Or.inr (Or.inl (List.mem_cons_of_mem _ h))
+        · exact Or.inr (Or.inr h)
+
+theorem joinWith_mem (sep : Str) : ∀ (l : List Str) (c : Char), c ∈ joinWith sep l → c ∈ sep ∨ ∃ seg ∈ l, c ∈ seg
+  | [], c, h => by cases h
+  | [x], c, h => Or.inr ⟨x, List.mem_singleton.mpr rfl, h⟩
+  | x :: y :: r, c, h => by
+    simp only [joinWith, List.mem_append] at h
+    rcases h with (h | h) | h
+    · exact Or.inr ⟨x, List.mem_cons_self, h⟩
+    · exact Or.inl h
+    · rcases joinWith_mem sep (y :: r) c h with h | ⟨seg, hs, hc⟩
+      · exact Or.inl h
+      · exact Or.inr ⟨seg, List.mem_cons_of_mem _ hs, hc⟩
+
+/-- removing dot segments neither removes the leading "/" nor introduces a character -/
+theorem removeDotSegments_form (r : Str) (hq : '?' ∉ r) :
+    ∃ r', removeDotSegments ('/' :: r) = '/' :: r' ∧ '?' ∉ r' := by
+  refine ⟨_, rfl, ?_⟩
+  intro hm
+  rcases joinWith_mem _ _ _ hm with h | ⟨seg, hs, hc⟩
+  · revert h; decide
+  · rcases dotLoop_mem _ _ _ hs with h | h | h
+    · cases h
+    · rcases splitSlash_go_mem _ _ _ h _ hc with h' | h'
+      · cases h'
+      · exact hq h'
+    · subst h; cases hc
+
+theorem keyPath_form (s h p q : Str) (w : WFUrl s h p q) : ∃ r, keyPath s p = '/' :: r ∧ '?' ∉ r := by
+  rcases w.pathAbs with hp | ⟨r, hp⟩
   · subst hp
     refine ⟨[], ?_, by simp⟩
-    rcases hs with hs | hs <;> subst hs <;> decide
+    rcases w.scheme with hs | hs <;> subst hs <;> decide
   · subst hp
-    refine ⟨r, by simp, fun hm => hq (List.mem_cons_of_mem _ hm)⟩
+    have hq : '?' ∉ normalizePercentEncoding r := npe_no_qmark r (fun hm => w.pathNoQ (List.mem_cons_of_mem _ hm))
+    obtain ⟨r', e, hr'⟩ := removeDotSegments_form _ hq
+    refine ⟨r', ?_, hr'⟩
+    unfold keyPath
+    rw [npe_cons_ne _ _ (by decide), e]
+    simp
 
 theorem authority_inj (s h1 h2 : Str) (hs : s = (str% "http") ∨ s = (str% "https"))
     (n1 : NoPortSuffix (keyHost h1)) (n2 : NoPortSuffix (keyHost h2))
@@ -317,20 +400,18 @@ theorem scheme_prefix_inj (s1 s2 x y : Str) (h1 : s1 = (str% "http") ∨ s1 = (s
 theorem key_injective (s1 h1 p1 q1 s2 h2 p2 q2 : Str) (w1 : WFUrl s1 h1 p1 q1) (w2 : WFUrl s2 h2 p2 q2)
     (e : makeURLKeyOf s1 h1 p1 q1 [] = makeURLKeyOf s2 h2 p2 q2 []) :
     s1 = s2 ∧ keyHost h1 = keyHost h2 ∧ effPort s1 h1 = effPort s2 h2 ∧
-    normalizePercentEncoding (keyPath s1 p1) = normalizePercentEncoding (keyPath s2 p2) ∧
+    keyPath s1 p1 = keyPath s2 p2 ∧
     normalizePercentEncoding q1 = normalizePercentEncoding q2 := by
   rw [key_form, key_form] at e
   obtain ⟨hs, e⟩ := scheme_prefix_inj _ _ _ _ w1.scheme w2.scheme e
   subst hs
-  obtain ⟨r1, hr1, nq1⟩ := keyPath_form s1 p1 w1.scheme w1.pathAbs w1.pathNoQ
-  obtain ⟨r2, hr2, nq2⟩ := keyPath_form s1 p2 w2.scheme w2.pathAbs w2.pathNoQ
-  rw [hr1, hr2, npe_cons_ne _ _ (by decide), npe_cons_ne _ _ (by decide)] at e ⊢
+  obtain ⟨r1, hr1, m1⟩ := keyPath_form s1 h1 p1 q1 w1
+  obtain ⟨r2, hr2, m2⟩ := keyPath_form s1 h2 p2 q2 w2
+  rw [hr1, hr2] at e ⊢
   simp only [List.cons_append] at e
   obtain ⟨ea, e⟩ := split_unique '/' _ _ _ _ (keyAuthority_no_slash s1 h1 w1.scheme w1.hostNoSlash)
     (keyAuthority_no_slash s1 h2 w2.scheme w2.hostNoSlash) e
   obtain ⟨eh, ep⟩ := authority_inj s1 h1 h2 w1.scheme w1.hostNoPort w2.hostNoPort ea
-  have m1 := npe_no_qmark r1 nq1
-  have m2 := npe_no_qmark r2 nq2
   refine ⟨rfl, eh, ep, ?_⟩
   by_cases c1 : q1.isEmpty = true <;> by_cases c2 : q2.isEmpty = true
   · simp only [c1, c2, ↓reduceIte, List.append_nil] at e
@@ -349,7 +430,7 @@ theorem key_injective (s1 h1 p1 q1 s2 h2 p2 q2 : Str) (w1 : WFUrl s1 h1 p1 q1) (
     equivalent spellings share one key) -/
 theorem key_complete (s h1 p1 q1 h2 p2 q2 : Str)
     (eh : keyHost h1 = keyHost h2) (ep : effPort s h1 = effPort s h2)
-    (epath : normalizePercentEncoding (keyPath s p1) = normalizePercentEncoding (keyPath s p2))
+    (epath : keyPath s p1 = keyPath s p2)
     (eq : normalizePercentEncoding q1 = normalizePercentEncoding q2) :
     makeURLKeyOf s h1 p1 q1 [] = makeURLKeyOf s h2 p2 q2 [] := by
   rw [key_form, key_form]
@@ -503,6 +584,47 @@ theorem splitAuthority_eq (hp : Str) : Spec.splitAuthority hp = splitHostPort hp
   · subst e
     rw [splitAuthority_of_split a d h, splitHostPort_of_split a d h]
 
+theorem dotSegs_eq : ∀ (segs out : List Str), Spec.dotSegs out segs = dotLoop out segs
+  | [], out => by simp [Spec.dotSegs, dotLoop]
+  | [seg], out => by simp [Spec.dotSegs, dotLoop]
+  | seg :: s2 :: rest, out => by
+    simp only [Spec.dotSegs, dotLoop]
+    split
+    · exact dotSegs_eq (s2 :: rest) out
+    · split
+      · exact dotSegs_eq (s2 :: rest) _
+      · exact dotSegs_eq (s2 :: rest) _
+
+theorem splitOnSlash_go_eq : ∀ (s cur : Str), Spec.splitOnSlash.go cur s = splitSlash.go cur s
+  | [], cur => by simp [Spec.splitOnSlash.go, splitSlash.go]
+  | c :: r, cur => by
+    simp only [Spec.splitOnSlash.go, splitSlash.go]
+    split
+    · rw [splitOnSlash_go_eq r []]
+    · exact splitOnSlash_go_eq r _
+
+theorem joinSlash_eq : ∀ (l : List Str), Spec.joinSlash l = joinWith ['/'] l
+  | [] => rfl
+  | [x] => rfl
+  | x :: y :: r => by
+    simp only [Spec.joinSlash, joinWith]
+    rw [joinSlash_eq (y :: r)]; simp
+
+theorem removeDots_eq (p : Str) : Spec.removeDots p = removeDotSegments p := by
+  cases p with
+  | nil => rfl
+  | cons c r =>
+    by_cases hc : c = '/'
+    · subst hc
+      simp only [Spec.removeDots, removeDotSegments]
+      rw [joinSlash_eq, dotSegs_eq]; unfold Spec.splitOnSlash splitSlash; rw [splitOnSlash_go_eq]
+    · unfold Spec.removeDots removeDotSegments
+      split
+      · rename_i heq; cases heq; exact absurd rfl hc
+      · split
+        · rename_i heq; cases heq; exact absurd rfl hc
+        · rfl
+
 /-- the cache key IS the RFC 3986 normal form of Spec/Defs.lean (the one the C03 monitor evaluates on
     the implementation's trace), for every http(s) URL with an empty Opaque part -/
 theorem key_eq_spec (s h p q : Str) (hs : s = (str% "http") ∨ s = (str% "https")) :
@@ -515,17 +637,19 @@ theorem key_eq_spec (s h p q : Str) (hs : s = (str% "http") ∨ s = (str% "https
   have hne : defaultPort s ≠ [] := by rcases hs with hs | hs <;> subst hs <;> decide
   have hsch : (decide (s = (str% "http")) || decide (s = (str% "https"))) = true := by
     rcases hs with hs | hs <;> subst hs <;> decide
-  simp only [List.isEmpty_nil, Bool.not_true, Bool.false_eq_true, ↓reduceIte, hl, hd, hsch, Bool.and_true, pctNorm_eq]
+  simp only [List.isEmpty_nil, Bool.not_true, Bool.false_eq_true, ↓reduceIte, hl, hd, hsch, Bool.and_true, pctNorm_eq,
+    removeDots_eq]
+  generalize removeDotSegments (normalizePercentEncoding p) = P
   by_cases hp0 : p0.isEmpty = true
   · have : p0 = [] := by simpa using hp0
     subst this
     have hne' : ¬ ([] = defaultPort s) := fun e => hne e.symm
-    by_cases hpe : p.isEmpty = true <;> by_cases hq : q.isEmpty = true <;>
-      simp [hpe, hq, hne', normalizePercentEncoding, List.append_assoc]
+    by_cases hpe : P.isEmpty = true <;> by_cases hq : q.isEmpty = true <;>
+      simp [hpe, hq, hne', List.append_assoc]
   · by_cases hdef : p0 = defaultPort s
-    · by_cases hpe : p.isEmpty = true <;> by_cases hq : q.isEmpty = true <;>
-        simp [hpe, hq, hdef, normalizePercentEncoding, List.append_assoc]
-    · by_cases hpe : p.isEmpty = true <;> by_cases hq : q.isEmpty = true <;>
-        simp [hp0, hpe, hq, hdef, normalizePercentEncoding, List.append_assoc]
+    · by_cases hpe : P.isEmpty = true <;> by_cases hq : q.isEmpty = true <;>
+        simp [hpe, hq, hdef, List.append_assoc]
+    · by_cases hpe : P.isEmpty = true <;> by_cases hq : q.isEmpty = true <;>
+        simp [hp0, hpe, hq, hdef, List.append_assoc]
 
 end Httpcache
